@@ -74,7 +74,7 @@ func genCase(t *rapid.T) Case {
 	for i := 0; i < n; i++ {
 		kind := "retain"
 		if i > 0 {
-			kind = rapid.SampledFrom([]string{"retain", "read", "read", "read-goroutine", "read-conn", "write", "conn-retain", "conn-retain", "conn-read", "conn-read", "retain-odd", "reserialize", "unmarshal", "answer", "inspect", "echo", "marshal-echo", "buf-retain", "buf-read", "buf-read", "scribble", "retain-again", "scribble"}).Draw(t, "kind")
+			kind = rapid.SampledFrom([]string{"retain", "read", "read", "read-goroutine", "read-conn", "write", "conn-retain", "conn-retain", "conn-read", "conn-read", "retain-odd", "reserialize", "unmarshal", "answer", "inspect", "echo", "marshal-echo", "buf-retain", "buf-read", "buf-read", "scribble", "retain-again", "scribble", "forward"}).Draw(t, "kind")
 		}
 		var m gen.Msg
 		m.Flags, m.Code, m.App, m.HbH, m.E2E = cat.Header(t)
@@ -438,6 +438,10 @@ func runCase(c Case) *ev.Failure {
 						}
 					}
 				}
+				// the whole top level, filtered by vendor (an empty path selects every top-level AVP)
+				r.m.FindAVPsWithPath(nil, 0)
+				r.m.FindAVPsWithPath([]interface{}{}, 10415)
+				r.m.FindAVPsWithPath(nil, dict.UndefinedVendorID)
 				_ = r.m.String()
 				_ = r.m.Len()
 			}
@@ -477,6 +481,18 @@ func runCase(c Case) *ev.Failure {
 				r.str = m.String()
 				kept = append(kept, r)
 			}
+		case "forward":
+			// a relay forwards every kept message: a plain write, and writes with a retry budget
+			// to a transport that first refuses (nothing accepted, temporary error) or accepts a
+			// part; writing a message is not a reason for it to change
+			for _, r := range kept {
+				var w bytes.Buffer
+				r.m.WriteTo(&w)
+				r.m.WriteToWithRetry(&flakyWriter{refuse: 1}, 2)
+				r.m.WriteToWithRetry(&flakyWriter{refuse: 2, part: 7}, 3)
+				r.m.WriteToStreamWithRetry(&flakyWriter{refuse: 1}, 3, 1)
+				r.m.WriteToWithRetry(&flakyWriter{refuse: 3}, 1) // the budget runs out
+			}
 		case "write":
 			m := diam.NewMessage(st.Msg.Code, st.Msg.Flags, st.Msg.App, st.Msg.HbH, st.Msg.E2E, p)
 			for _, a := range st.Msg.AVPs {
@@ -494,6 +510,26 @@ func runCase(c Case) *ev.Failure {
 		}
 	}
 	return nil
+}
+
+// flakyWriter refuses its first writes with a temporary error (accepting `part` bytes of each,
+// if there are that many), then accepts everything.
+type flakyWriter struct {
+	refuse, part int
+	bytes.Buffer
+}
+
+func (w *flakyWriter) Write(b []byte) (int, error) {
+	if w.refuse > 0 {
+		w.refuse--
+		k := w.part
+		if k > len(b) {
+			k = len(b)
+		}
+		w.Buffer.Write(b[:k])
+		return k, &memnet.TempError{Msg: "scripted temporary write error"}
+	}
+	return w.Buffer.Write(b)
 }
 
 // persistentConn is one library-served in-memory connection used for several steps.
@@ -565,7 +601,7 @@ func readThroughConn(p *dict.Parser, ref []byte, step int) *ev.Failure {
 
 var prop = ev.Register(&ev.Prop[Case]{
 	ID: "C06", Name: "retained",
-	Rule: "histories of {retain a decoded message, retain a message delivered by a long-lived library-served connection while that connection goes on receiving, read other content on the same goroutine / another goroutine / through a fresh or the same library-served in-memory connection, read / retain from one bytes.Buffer that the application refills, WriteTo, re-serialise, Unmarshal into a reused struct, Answer, inspect (FindAVP / FindAVPs / FindAVPsWithPath through its groups, String, Len), echo the AVPs of a retained message into an answer with AddAVP / InsertAVP or through Marshal of a []*diam.AVP field, retain a non-canonical wire image (other widths of fixed-width, IPv4 and IPv6 AVPs, version octet 0 / 2 / 255), keep a second decoding of the bytes of the first retained message, overwrite in place the slice-backed values (and replace others, and flip a flag bit) of one retained message - the others must not change} with messages made of slice-backed types (Address IPv4/IPv6/other, IPv4, IPv6, OctetString, undefined codes, groups of them) on both sides of the 1 KiB pooled buffer; after EVERY step every retained message must still equal the abstract message it was decoded from (tree, re-serialisation, rendering, and the snapshot of code / flags / vendor id / Length / value bytes of every AVP taken when it was decoded); non-trivial = a retained message with a slice-backed value and body <= 1024 followed by a later read with body <= 1024",
+	Rule: "histories of {retain a decoded message, retain a message delivered by a long-lived library-served connection while that connection goes on receiving, read other content on the same goroutine / another goroutine / through a fresh or the same library-served in-memory connection, read / retain from one bytes.Buffer that the application refills, WriteTo, forward a kept message (WriteTo, WriteToWithRetry / WriteToStreamWithRetry against a transport that first refuses or accepts a part), re-serialise, Unmarshal into a reused struct, Answer, inspect (FindAVP / FindAVPs / FindAVPsWithPath through its groups, String, Len), echo the AVPs of a retained message into an answer with AddAVP / InsertAVP or through Marshal of a []*diam.AVP field, retain a non-canonical wire image (other widths of fixed-width, IPv4 and IPv6 AVPs, version octet 0 / 2 / 255), keep a second decoding of the bytes of the first retained message, overwrite in place the slice-backed values (and replace others, and flip a flag bit) of one retained message - the others must not change} with messages made of slice-backed types (Address IPv4/IPv6/other, IPv4, IPv6, OctetString, undefined codes, groups of them) on both sides of the 1 KiB pooled buffer; after EVERY step every retained message must still equal the abstract message it was decoded from (tree, re-serialisation, rendering, and the snapshot of code / flags / vendor id / Length / value bytes of every AVP taken when it was decoded); non-trivial = a retained message with a slice-backed value and body <= 1024 followed by a later read with body <= 1024",
 	Gen:  genCase, Run: runCase,
 	Classify: func(c Case) (bool, []string) {
 		var cl []string
